@@ -85,16 +85,27 @@ def _run(ctx, replay):
     stats = dict(rounds=0, calls=0, threads=[], tsan_reports=0, serial_mismatches=0, distinct_ops=0, locale_runs=0, locale_tsan=0, locale_changed=0)
     viol = []; all_ops = set(); samples = []; ok_texts = set()
 
+    def runh(args, e, tmo=240):
+        """harness process with a deadline: a corrupted heap or a deadlock in the library under test must not hang the check"""
+        class R: pass
+        try:
+            return subprocess.run(args, capture_output=True, text=True, env=e, errors='replace', timeout=tmo)
+        except subprocess.TimeoutExpired as ex:
+            r = R(); r.returncode = -9
+            r.stdout = (ex.stdout.decode('latin1') if isinstance(ex.stdout, bytes) else (ex.stdout or ''))
+            r.stderr = (ex.stderr.decode('latin1') if isinstance(ex.stderr, bytes) else (ex.stderr or '')) + '\n[harness killed after %d s: hang]' % tmo
+            return r
+
     def one_round(lines, sd, label):
         path = ctx.sc.path('script_%d.txt' % stats['rounds'])
         with open(path, 'w') as f: f.write('\n'.join(lines) + '\n')
         e = dict(env, LC_ALL='C')
-        r = subprocess.run([exe, 'run', path, str(sd)], capture_output=True, text=True, env=e, errors='replace')
-        s = subprocess.run([exe, 'serial', path, str(sd)], capture_output=True, text=True, env=e, errors='replace')
+        r = runh([exe, 'run', path, str(sd)], e)
+        s = runh([exe, 'serial', path, str(sd)], e)
         if ctx.tier == 'thorough' and r.returncode == 0 and r.stdout == s.stdout:
             # the same scripts under two more schedules (other yield/spin pattern)
             for extra in (1, 2):
-                r2 = subprocess.run([exe, 'run', path, str(sd + 7919 * extra)], capture_output=True, text=True, env=e, errors='replace')
+                r2 = runh([exe, 'run', path, str(sd + 7919 * extra)], e)
                 stats['schedules'] = stats.get('schedules', 0) + 1
                 if r2.returncode != 0 or r2.stdout != s.stdout: r = r2; break
         stats['rounds'] += 1; stats['calls'] += len(lines)
@@ -102,6 +113,13 @@ def _run(ctx, replay):
         stats['threads'].append(nt)
         for l in lines: all_ops.add(l.split(' ', 1)[1])
         reps = tsan_reports(r.stderr) + tsan_reports(s.stderr)
+        if r.returncode not in (0, 66) and s.returncode == 0:
+            # the serial run of the same script is fine, the concurrent one crashed or hung: that is the property failing
+            stats['tsan_reports'] += len(reps)
+            viol.append(dict(kind='crash', what='concurrent run of a script whose serial run is fine %s (exit %d): %s' % (
+                'hung' if r.returncode == -9 else 'crashed', r.returncode, (reps[0].split('\n')[0] if reps else r.stderr[-300:])),
+                report=(reps[0][:2500] if reps else r.stderr[-2500:]), lines=lines, seed=sd, label=label))
+            return
         if r.returncode not in (0, 66) or s.returncode != 0:
             rep['tie_broken'].append('%s: thread harness exited %d / serial %d: %s' % (label, r.returncode, s.returncode, (r.stderr + s.stderr)[-300:]))
             return
@@ -150,7 +168,7 @@ def _run(ctx, replay):
     locale_finding = None
     if not replay or re.search(r'^#mode locale', open(replay).read(), flags=re.M):
         for k in range(3 if ctx.tier == 'quick' else 10):
-            p = subprocess.run([exe, 'locale', '16', '150', 'Ca5(PO4)3F'], capture_output=True, text=True, env=env, errors='replace')
+            p = runh([exe, 'locale', '16', '150', 'Ca5(PO4)3F'], env)
             stats['locale_runs'] += 1
             reps = tsan_reports(p.stderr)
             m = re.search(r'L queries (\d+) changed (\d+) final (\S+)', p.stdout)
